@@ -982,7 +982,8 @@ func TestHostileTextBodies(t *testing.T) {
 	lines := []string{"A;B=", "A;B=\"c", "A;B=c,", "A;", "A", ";", ":", "=", "A;B", "A;B=c;", "A;B=c;D=", "A;B=\"c\"d", " folded", "\r\n", "A;B=^", "A:\r\n B;C=", "\x00", "A;=:", ";=", "A;B=c:d\r\nE;F="}
 	k := 0
 	for _, l := range lines {
-		for _, pre := range []string{"", "BEGIN:VCALENDAR\r\n", "BEGIN:VCALENDAR\r\nVERSION:2.0\r\nBEGIN:VEVENT\r\n", "BEGIN:VCARD\r\n", "BEGIN:VCARD\r\nVERSION:4.0\r\n"} {
+		// also behind a complete valid object: a decoder that is asked for "the next object" meets the line there
+		for _, pre := range []string{"", "BEGIN:VCALENDAR\r\n", "BEGIN:VCALENDAR\r\nVERSION:2.0\r\nBEGIN:VEVENT\r\n", "BEGIN:VCARD\r\n", "BEGIN:VCARD\r\nVERSION:4.0\r\n", icalTxt, icalTxt + "\r\n\r\n", vcardTx, icalTxt + "BEGIN:VCALENDAR\r\n"} {
 			for _, tgt := range []struct{ server, path, ct string }{{"caldav", "/u/h/c/new.ics", "text/calendar; charset=utf-8"}, {"carddav", "/u/h/c/new.vcf", "text/vcard"}} {
 				k++
 				if !vev.MyShare(k) {
@@ -993,7 +994,7 @@ func TestHostileTextBodies(t *testing.T) {
 			}
 		}
 	}
-	rec.ExhaustiveSub("20 hostile content lines x 5 prefixes as PUT bodies of both servers")
+	rec.ExhaustiveSub("20 hostile content lines x 9 prefixes (incl. a complete valid object) as PUT bodies of both servers")
 }
 
 func TestMutations(t *testing.T) {
